@@ -97,6 +97,14 @@ def check_no_panic(ctx, rep, tier):
     for p, kinds in w.items():
         if kinds & {'assign-field', 'assign-whole'} and not prog.fns[p].get('derived'):
             mutators |= public_roots(ctx, p, callers=cmap)
+    # every public `&mut self` operation of the frame decoder is a transition as well (state can also be installed
+    # without a field assignment: `mem::swap(self, &mut saved)`)
+    for g in ctx.facts['fns']:
+        if g.get('derived') or g.get('impl_trait') or g['vis'] != 'pub' or (g.get('impl_self') or {}).get('path') != PS2:
+            continue
+        ins = g.get('inputs') or []
+        if ins and ins[0].get('k') == 'ref' and ins[0].get('mut') and ins[0]['to'].get('k') == 'adt' and ins[0]['to'].get('path') == PS2:
+            mutators.add(g['path'])
     mutators = sorted(p for p in mutators if not prog.fns[p].get('derived'))
     outside = [p for p in mutators if ((prog.fns[p].get('impl_self') or {}).get('path') != PS2)]
     for p in outside:
